@@ -84,6 +84,7 @@ Definition tdisjoint (s t : tseg) : bool :=
 
 Definition tentry_ok (pool_len : N) (t : tseg) : bool :=
   let '(ss, sl, ds, dl) := t in
+  (ss + sl <? 2 ^ 64) &&
   (0 <? sl) && N.even ss && N.even sl && (dl <=? sl) && N.even dl && (ds + dl <=? pool_len).
 
 Definition consistent_table (pool_len : N) (t : list tseg) : bool :=
